@@ -322,6 +322,17 @@ func (r ImportsReplacer) Cleanup(d data.Data, f *ast.File, newNames []string) er
 		taken[n] = struct{}{}
 	}
 
+	// How many imports each import declaration holds before any is
+	// deleted.
+	specs := make(map[*ast.GenDecl]int)
+	for _, decl := range f.Decls {
+		d, ok := decl.(*ast.GenDecl)
+		if !ok || d.Tok != token.IMPORT {
+			break
+		}
+		specs[d] = len(d.Specs)
+	}
+
 	// Delete matched imports that are no longer used.
 	for _, key := range impData.MatchedImports {
 		imp := key.Path
@@ -352,15 +363,17 @@ func (r ImportsReplacer) Cleanup(d data.Data, f *ast.File, newNames []string) er
 		}
 	}
 
-	// For each import decl, if the import is the last in the group,
-	// delete the parens around it.
+	// For each import decl out of which imports were deleted, if the
+	// import that is left is the last in the group, delete the parens
+	// around it. A declaration that was not touched keeps its form (and
+	// the comments inside its parentheses their place).
 	for _, decl := range f.Decls {
 		d, ok := decl.(*ast.GenDecl)
 		if !ok || d.Tok != token.IMPORT {
 			break
 		}
 
-		if len(d.Specs) == 1 && d.Lparen.IsValid() {
+		if len(d.Specs) == 1 && specs[d] > 1 && d.Lparen.IsValid() {
 			d.Lparen = token.NoPos
 			d.Rparen = token.NoPos
 		}
